@@ -438,6 +438,34 @@ func genC20pass(r *Run) int {
 			}
 		}
 		evals += exerciseC20(r, subject{fmt.Sprintf("Labels %q", names), reflect.ValueOf(l), l.ToBytes, func() string { return fmt.Sprint(l.Labels) }}, maxSeq)
+		// a look at a value in the middle of a tentative edit (a relay appends its domain, checks Length() against its
+		// budget, takes the domain out again): twins decoded from the same octets and edited alike, one of them read
+		// meanwhile, encode alike afterwards - also inside the options that hold name lists
+		{
+			cw := append(append([]byte{}, w...), 1, 'x', 0xc0, 0) // compressed: not what the encoder itself would write
+			a, errA := rfc1035label.FromBytes(append([]byte{}, cw...))
+			b, errB := rfc1035label.FromBytes(append([]byte{}, cw...))
+			if errA == nil && errB == nil {
+				keepA, keepB := a.Labels, b.Labels
+				switch i % 3 {
+				case 0:
+					a.Labels, b.Labels = append(append([]string{}, keepA...), "local.example"), append(append([]string{}, keepB...), "local.example")
+				case 1:
+					a.Labels, b.Labels = []string{"only.example"}, []string{"only.example"}
+				default:
+					a.Labels, b.Labels = nil, nil
+				}
+				_ = a.Length()
+				_ = a.ToBytes()
+				_ = a.String()
+				a.Labels, b.Labels = keepA, keepB
+				if ea, eb := a.ToBytes(), b.ToBytes(); !bytes.Equal(ea, eb) {
+					r.Fail("c20-read-during-edit-changes-encoding", fmt.Sprintf("Labels decoded from %x", cw),
+						fmt.Sprintf("two values decoded from the same octets and edited and restored alike encode differently once one of them has been read (Length, ToBytes, String) while edited: %x vs %x", ea, eb))
+				}
+				evals++
+			}
+		}
 		// sets holding empty (root) names between others, repeated names, decoded and constructed;
 		// alone, in a DHCPv6 domain list / FQDN / NTP option, and as a DHCPv4 domain search value
 		var odd []string
